@@ -15,6 +15,8 @@
 (***************************************************************************)
 EXTENDS F32
 
+DefaultViewBox == << << 49664, 0 >>, << 49664, 0 >>, << 16896, 0 >>, << 16896, 0 >> >>  \* -32 -32 32 32
+
 Cut == [n |-> 0, u |-> 0, v |-> Zero]
 
 DecNatural(b, p) ==
